@@ -40,6 +40,12 @@ PropVariants(ctx) ==
        \o <<all, Reverse(all)>>
        \o [i \in 1..Len(rep) |-> all \o <<Pr2(rep[i]), Pr(rep[i])>>]
 
+\* property sections whose length sits on and around each boundary of the Property Length variable byte integer:
+\* `base` followed by one user property whose value is as long as it takes
+PropLens == <<126, 127, 128, 129, 16382, 16383, 16384, 16385>>
+Filler(n) == [id |-> 38, v |-> [k |-> S(1, 107), v |-> S(n, 118)]]
+PropBoundary(base) == [i \in 1..Len(PropLens) |-> base \o <<Filler(PropLens[i] - LLen(PropsBytes(base)) - 6)>>]
+
 \* malformed property sections (the decoder must answer with an error or tolerate them, never panic)
 BadPropVariants(ctx) ==
     LET ids == PropsOf(ctx)
@@ -114,6 +120,7 @@ In5 ==
         \o <<Legal(Connack(TRUE, TRUE, 0, <<>>), "session present")>>
         \o [i \in 1..Len(pv("CONNACK")) |-> Legal(Connack(TRUE, FALSE, 0, pv("CONNACK")[i]), "properties")]
         \o [i \in 1..Len(Lens) |-> Legal(Connack(TRUE, FALSE, 0, <<[id |-> 31, v |-> S(Lens[i], 114)]>>), "string length")]
+        \o [i \in 1..Len(PropLens) |-> Legal(Connack(TRUE, FALSE, 0, PropBoundary(<<Pr(33)>>)[i]), "property length boundary")]
         \o [i \in 1..Len(bad("CONNACK")) |-> Bad(bad("CONNACK")[i].class, Connack(TRUE, FALSE, 0, bad("CONNACK")[i].props), "")]
         \o [i \in 1..Len(badrc("CONNACK")) |-> Bad("illegal-reason-code", Connack(TRUE, FALSE, badrc("CONNACK")[i], <<>>), "")]
         \* PUBLISH
@@ -121,6 +128,8 @@ In5 ==
                      d \in BOOLEAN, q \in 0..2, r \in BOOLEAN, n \in {0, 1, 100}} \ {Legal(Publish(TRUE, TRUE, 0, r, S(3, 116), 258, <<>>, S(n, 112)), "flags") : r \in BOOLEAN, n \in {0, 1, 100}})
         \o [i \in 1..Len(pv("PUBLISH")) |-> Legal(Publish(TRUE, FALSE, 1, FALSE, S(3, 116), 7, pv("PUBLISH")[i], S(4, 112)), "properties")]
         \o <<Legal(Publish(TRUE, FALSE, 0, FALSE, S(0, 0), 0, <<Pr(35)>>, S(4, 112)), "alias with empty topic")>>
+        \o [i \in 1..Len(PropLens) |-> Legal(Publish(TRUE, FALSE, 1, FALSE, S(3, 116), 9, PropBoundary(<<>>)[i], S(2, 112)), "property length boundary")]
+        \o [i \in 1..Len(PropLens) |-> Legal(Publish(TRUE, FALSE, 1, FALSE, S(3, 116), 9, PropBoundary(<<Pr(35), Pr(3)>>)[i], S(2, 112)), "property length boundary with alias")]
         \o [i \in 1..Len(RemLens) |-> Legal(Publish(TRUE, FALSE, 0, FALSE, S(3, 116), 0, <<>>, S(RemLens[i] - 6, 112)), "remaining length boundary")]
         \o [i \in 1..Len(Lens) |-> Legal(Publish(TRUE, FALSE, 0, FALSE, S(IF Lens[i] = 0 THEN 1 ELSE Lens[i], 116), 0, <<>>, S(1, 112)), "topic length")]
         \o [i \in 1..Len(bad("PUBLISH")) |-> Bad(bad("PUBLISH")[i].class, Publish(TRUE, FALSE, 1, FALSE, S(3, 116), 7, bad("PUBLISH")[i].props, S(1, 112)), "")]
@@ -132,6 +141,7 @@ In5 ==
                \o [i \in 1..Len(rcs(t)) |-> Legal(Ack(t, TRUE, 513, rcs(t)[i], <<>>, "rc"), "reason code")]
                \o [i \in 1..Len(rcs(t)) |-> Legal(Ack(t, TRUE, 65535, rcs(t)[i], <<>>, "full"), "reason code and empty property section")]
                \o [i \in 1..Len(pv(t)) |-> Legal(Ack(t, TRUE, 1, 0, pv(t)[i], "full"), "properties")]
+               \o [i \in 1..Len(PropLens) |-> Legal(Ack(t, TRUE, 1, 0, PropBoundary(<<>>)[i], "full"), "property length boundary")]
                \o [i \in 1..Len(bad(t)) |-> Bad(bad(t)[i].class, Ack(t, TRUE, 1, 0, bad(t)[i].props, "full"), "")]
                \o [i \in 1..Len(badrc(t)) |-> Bad("illegal-reason-code", Ack(t, TRUE, 1, badrc(t)[i], <<>>, "rc"), "")]])
         \* SUBACK UNSUBACK
@@ -146,6 +156,7 @@ In5 ==
         \o <<Legal(Disc(TRUE, 0, <<>>, "short"), "remaining length 0")>>
         \o [i \in 1..Len(rcs("DISCONNECT")) |-> Legal(Disc(TRUE, rcs("DISCONNECT")[i], <<>>, "rc"), "reason code")]
         \o [i \in 1..Len(pv("DISCONNECT")) |-> Legal(Disc(TRUE, 139, pv("DISCONNECT")[i], "full"), "properties")]
+        \o [i \in 1..Len(PropLens) |-> Legal(Disc(TRUE, 139, PropBoundary(<<Pr(31)>>)[i], "full"), "property length boundary")]
         \o [i \in 1..Len(bad("DISCONNECT")) |-> Bad(bad("DISCONNECT")[i].class, Disc(TRUE, 0, bad("DISCONNECT")[i].props, "full"), "")]
         \o [i \in 1..Len(badrc("DISCONNECT")) |-> Bad("illegal-reason-code", Disc(TRUE, badrc("DISCONNECT")[i], <<>>, "rc"), "")]
         \o <<Legal([type |-> "PINGRESP", v5 |-> TRUE], "")>>
@@ -195,6 +206,15 @@ Out(v5) ==
         \o SetSeq({Legal(Publish(v5, d, q, r, S(3, 116), 258, <<>>, S(n, 112)), "flags") : d \in BOOLEAN, q \in 0..2, r \in BOOLEAN, n \in {0, 1, 100}}
                   \ {Legal(Publish(v5, TRUE, 0, r, S(3, 116), 258, <<>>, S(n, 112)), "flags") : r \in BOOLEAN, n \in {0, 1, 100}})
         \o [i \in 1..Len(pvp) |-> Legal(Publish(v5, FALSE, 1, FALSE, S(3, 116), 7, pvp[i], S(4, 112)), "properties")]
+        \o (IF v5 THEN [i \in 1..Len(PropLens) |-> Legal(Publish(v5, FALSE, 1, FALSE, S(3, 116), 7, PropBoundary(<<>>)[i], S(2, 112)), "property length boundary")]
+                        \o [i \in 1..Len(PropLens) |-> Legal(Publish(v5, FALSE, 2, FALSE, S(3, 116), 7, PropBoundary(<<Pr(35)>>)[i], S(2, 112)), "property length boundary with alias")]
+                        \o [i \in 1..Len(PropLens) |-> Legal(Publish(v5, FALSE, 0, FALSE, S(3, 116), 0, PropBoundary(<<Pr(35), Pr(3), Pr(2)>>)[i], S(0, 0)), "property length boundary with alias, no payload")]
+                        \o [i \in 1..Len(PropLens) |-> Legal(Connect(v5, TRUE, 60, S(4, 99), FALSE, NoWill, FALSE, S(0, 0), FALSE, S(0, 0), PropBoundary(<<Pr(33)>>)[i]), "property length boundary")]
+                        \o [i \in 1..Len(PropLens) |-> Legal(Connect(v5, TRUE, 60, S(4, 99), TRUE, Will(1, FALSE, S(3, 119), S(2, 112), PropBoundary(<<Pr(24)>>)[i]), FALSE, S(0, 0), FALSE, S(0, 0), <<>>), "will property length boundary")]
+                        \o [i \in 1..Len(PropLens) |-> Legal(Subscribe(v5, 10, PropBoundary(<<Pr(11)>>)[i], <<SubE(S(3, 102), 1, FALSE, FALSE, 0)>>), "property length boundary")]
+                        \o [i \in 1..Len(PropLens) |-> Legal(Unsubscribe(v5, 12, PropBoundary(<<>>)[i], <<S(3, 102)>>), "property length boundary")]
+                        \o [i \in 1..Len(PropLens) |-> Legal(Disc(v5, 4, PropBoundary(<<Pr(31)>>)[i], "full"), "property length boundary")]
+            ELSE <<>>)
         \o [i \in 1..Len(RemLens) |-> Legal(Publish(v5, FALSE, 0, FALSE, S(3, 116), 0, <<>>, S(RemLens[i] - (IF v5 THEN 6 ELSE 5), 112)), "remaining length boundary")]
         \o [i \in 1..Len(Lens) |-> Legal(Publish(v5, FALSE, 2, TRUE, S(IF Lens[i] = 0 THEN 1 ELSE Lens[i], 116), 65535, <<>>, S(1, 112)), "topic length")]
         \o [i \in 1..Len(pvs) |-> Legal(Subscribe(v5, 10, pvs[i], <<SubE(S(3, 102), 1, FALSE, FALSE, 0)>>), "properties")]
